@@ -972,15 +972,7 @@ class Connect(Stream):
 # ------------------------------------------------------------------------------------------------
 # witnesses of the refuted full-strength statements (replayed on the implementation on every run)
 # ------------------------------------------------------------------------------------------------
-WITNESSES = [
-    ('C10_validate_iff_refuted_declared_site',
-     [['node', 'nd1', 'VM', 'A'], ['comp', 'nd1', 'nic0', 'shared'],
-      ['svc', 'svc1', 'L2Bridge', 'B', [['c', 'nd1', 'nic0', 0]], 'ctor']],
-     'svc[1]:declared-site-mismatch'),
-    ('C10_validate_iff_refuted_facility',
-     [['facility', 'fac1', 'A', 1], ['nprop', 'fac1', 'image', True]],
-     'node[0]:facility-forbidden:image_type'),
-]
+WITNESSES = []   # the three refuted statements were repaired in /repo (136d4de, fab89c1, 7b9c57b)
 
 
 def replay_witness(ops, reason):
@@ -1022,7 +1014,6 @@ class C10(Check):
 
     def refuted_witnesses(self):
         out = [(n, replay_witness(ops, reason)) for n, ops, reason in WITNESSES]
-        out.append(('C10_connect_interface_unguarded_refuted', replay_connect_witness))
         return out
 
 
